@@ -110,6 +110,13 @@ Theorem ftroundfix_eq : forall a, i32 a -> i32 (a + 32768) -> (0 <= a \/ a mod 6
   fx_round 32 16 a = ft_roundfix a.
 Proof. exact ftroundfix_eq. Qed.
 
+(* MIAP[1]: the control-value cut-in decision `(cvt - cur).abs() > cut_in` (wrapping i32) vs FreeType's
+   `FT_ABS( distance - org_dist ) > control_value_cutin` (64-bit long): identical whenever the difference of the two
+   i32 operands is itself an i32 other than i32::MIN, for every cut-in value (negative ones included) *)
+Theorem miap_cutin_eq : forall c o k, i32 c -> i32 o -> -2147483647 <= c - o <= 2147483647 ->
+  sk_miap_cutin c o k = ft_miap_cutin c o k.
+Proof. exact miap_cutin_eq. Qed.
+
 Print Assumptions ftmulfix_eq.
 Print Assumptions scale_point_eq.
 Print Assumptions ftmulfix_portable_mod32.
@@ -140,3 +147,4 @@ Print Assumptions round_super45_wrapfree.
 Print Assumptions pix_round_eq.
 Print Assumptions ftfloorfix_eq.
 Print Assumptions ftroundfix_eq.
+Print Assumptions miap_cutin_eq.
